@@ -95,6 +95,22 @@ class PStream:
         return v
 
 
+def gmp_fmt(z, base, width, fill, showpos, showbase, upper, adj):
+    """GMP's operator<<(ostream&, mpz) under stream flags (documented in the GMP manual, C++ formatted output)"""
+    mag = {10: "%d", 16: "%x", 8: "%o"}[base] % abs(z)
+    pre = ""
+    if showbase and base == 16:
+        pre = "0x"
+    elif showbase and base == 8:
+        pre = "0"
+    body = pre + mag
+    if upper:
+        body = body.upper()
+    sign = "-" if z < 0 else "+" if showpos else ""
+    pad = (fill or " ") * max(0, width - len(sign + body))
+    return pad + sign + body if adj == "r" else sign + body + pad if adj == "l" else sign + pad + body
+
+
 def nxc(t):
     return "--" if not t else "%02x" % ord(t[0])
 
@@ -102,16 +118,50 @@ def nxc(t):
 SEPS = [" ", "\n", "\t", "  ", " \n ", "\r\n", "\v", "\f", " \t "]
 
 
-def py_poly_read(text, p):
-    """Poly1Dom::read ("deg c_deg .. c_0", Integer-read coefficients) on ANY text, stream good at entry.
-    -> (coefficients low degree first mod p, rest, eof, fail) or None when the degree is not usable"""
+STATE = {"tmp0": False}       # set by main from the sources: do the num_get-based readers initialise their temporary?
+
+
+def py_coef_read(ps, reader, lohi):
+    """one coefficient through the ring's reader on the PStream ps -> integer, or None when the reader's temporary is
+    never assigned (`T tmp; is >> tmp;` whose sentry fails: stream not good, or only white space left)"""
+    if reader == "int":
+        return ps.read_int(0)
+    if not ps.good():
+        ps.f = True
+        return 0 if STATE["tmp0"] else None
+    if ps.t.strip(WS) == "":
+        ps.t, ps.e, ps.f = "", True, True
+        return 0 if STATE["tmp0"] else None
+    v, r, e, f = py_numget(ps.t, lohi[0], lohi[1], 0)
+    ps.t, ps.e, ps.f = r, e, f
+    return v
+
+
+def py_poly_read(text, p, fixed, reader="int", lohi=None, old=None):
+    """Poly1Dom::read ("deg c_deg .. c_0") on ANY text, stream good at entry, P holding `old` (residues).
+    fixed = the tree has the guarded body of frag/C19.fix-5.
+    -> (coefficients low degree first mod p, None = unspecified; rest; eof; fail), or "UB" for the unguarded body when no
+    degree is assigned / the degree is negative, or None when the degree is not usable here"""
+    old = list(old or [])
     ps = PStream(text)
+    if text.strip(WS) == "":
+        return (old, "", True, True) if fixed else "UB"
     v, r, e, f = py_numget(text, I64[0], I64[1], 0)
     ps.t, ps.e, ps.f = r, e, f
-    if v < 0 or v > 100000:
+    if f and fixed:
+        return (old, r, e, True)
+    if v < 0:
+        return ([], r, e, f) if fixed else "UB"
+    if v > 100000:
         return None
-    cs = [ps.read_int(0) for _ in range(v + 1)]
-    return ([c % p for c in reversed(cs)], ps.t, ps.e, ps.f)
+    cs = [py_coef_read(ps, reader, lohi) for _ in range(v + 1)]
+    return ([None if c is None else c % p for c in reversed(cs)], ps.t, ps.e, ps.f)
+
+
+def coefs_match(pred, got_text):
+    """predicted coefficient list (None = unspecified) against the harness' comma list"""
+    g = [] if got_text == "-" else got_text.split(",")
+    return len(g) == len(pred) and all(x is None or str(x) == y for x, y in zip(pred, g))
 
 
 def poly_rem(cs, irr, p):
@@ -138,6 +188,8 @@ def seq_expect(sp):
     except that a failed Integer read leaves it untouched."""
     typ, ps, out = sp["typ"], PStream(sp["text"]), []
     cur = sp.get("old")
+    degless = []
+    curP = [c % sp["p"] for c in sp.get("oldcs", [])] if typ in ("poly", "ext") else None
     for _ in range(sp["n"]):
         entry_good = ps.good()
         v, ef_ok, nx_ok = None, True, True
@@ -160,9 +212,15 @@ def seq_expect(sp):
                 nx_ok = False
         elif typ in ("elt", "gfq"):
             p = sp["p"]
+            sentry_failed = False
             if not entry_good:
                 ps.f = True
                 z, f = 0, True
+                sentry_failed = True
+            elif sp["reader"] != "int" and ps.t.strip(WS) == "":
+                ps.t, ps.e, ps.f = "", True, True
+                z, f = 0, True
+                sentry_failed = True
             elif sp["reader"] == "int":
                 z, r, e, f = py_int_read(ps.t, 0)
                 ps.t, ps.e, ps.f = r, e, f
@@ -171,6 +229,8 @@ def seq_expect(sp):
                 ps.t, ps.e, ps.f = r, e, f
             if entry_good and not f and abs(z) < p and (z >= 0 or sp.get("neg_ok")):
                 v = str(z % p)
+            elif sentry_failed and (sp["reader"] == "int" or sp.get("tmp0")):
+                v = "0"                 # the temporary is 0 (Integer tmp; / T tmp = 0;): the element becomes init(0)
         elif typ in ("ru", "ri"):
             N = 1 << sp["K"]
             if not entry_good:
@@ -185,24 +245,29 @@ def seq_expect(sp):
             if g >= 0 or typ == "ri":
                 v = str(w)
         elif typ in ("poly", "ext"):
-            if not entry_good:
-                break                   # the harness stops: `long deg` would be read from a stream that is not good
+            # the specification is the guarded reader (no degree -> P untouched + failbit; negative degree -> zero polynomial);
+            # the reads where the unguarded body is undefined are remembered in `degless`
             p = sp["p"]
-            dg = ps.read_int(0)
-            if ps.f or dg < 0 or dg > 1000:
-                vs, bad = [ps.read_int(0) for _ in range(1 if ps.f else 0)], True
+            reader, lohi = sp.get("reader", "int"), sp.get("lohi")
+            if not entry_good:
+                ps.f = True
+                degless.append(len(out))
             else:
-                vs, bad = [], False
-                for _ in range(dg + 1):
-                    vs.append(ps.read_int(0))
-                    bad = bad or ps.f
-            if not bad:
-                cs = [x % p for x in reversed(vs)]
+                if py_poly_read(ps.t, p, False, reader, lohi, curP) == "UB":
+                    degless.append(len(out))
+                r = py_poly_read(ps.t, p, sp["fixed"] or bool(degless and degless[-1] == len(out)), reader, lohi, curP)
+                if r is None:
+                    ps.f = True
+                    curP = None
+                else:
+                    curP, ps.t, ps.e, ps.f = list(r[0]), r[1], r[2], r[3]
+            if curP is not None and all(x is not None for x in curP):
+                cs = poly_rem(curP, sp["irr"], p) if typ == "ext" else curP
                 if typ == "ext":
-                    cs = poly_rem(cs, sp["irr"], p)
+                    curP = cs
                 v = ",".join(str(x) for x in cs) or "-"
         out.append((v, st(ps.e, ps.f) if ef_ok else None, nxc(ps.t) if nx_ok else None))
-    return out, (hx(ps.t) if not (typ == "rat" and ps.f) else None)
+    return out, (hx(ps.t) if not (typ == "rat" and ps.f) else None), degless
 
 
 def py_rat_read(t):
@@ -303,7 +368,7 @@ RINGS = {
 RING_CXX = {
     "bd": "ModularBalanced<double>", "bf": "ModularBalanced<float>", "bi32": "ModularBalanced<int32_t>",
     "bi64": "ModularBalanced<int64_t>", "ef": "ModularExtended<float>", "ed": "ModularExtended<double>",
-    "zz": "Modular<Integer>", "mg32": "Montgomery<int32_t>", "mgru7": "Montgomery<ruint<7>>", "log16": "Modular<Log16>",
+    "rmint": "RecInt::rmint", "zz": "Modular<Integer>", "mg32": "Montgomery<int32_t>", "mgru7": "Montgomery<ruint<7>>", "log16": "Modular<Log16>",
 }
 PRIMES = [3, 5, 7, 11, 13, 101, 127, 251, 257, 4093, 8191, 16381, 32749, 40499, 65521, 131071, 2097143, 16777213, 94906249,
           189812507, 2147483629, 4294967291, 6074000981, 1125899906842597, 18446744073709551557,
@@ -407,7 +472,8 @@ def source_constants(chk):
     t = src("src/kernel/recint/rudisplay.h")
     m = re.search(r"char\s+result\s*\[([^\]]+)\]", t or "")
     if not m:
-        out["recint.display_dec.buffer"] = "pattern not found (inconclusive)"
+        out["recint.display_dec.buffer"] = "pattern not found"
+        chk.broke("source tie lost: `char result[...]` of display_dec not found in rudisplay.h (the buffer theorem C19_ruint_dec_buffer can no longer be re-checked against the source)")
     else:
         expr = m.group(1)
         pyexpr = re.sub(r"size_t\s*\(\s*(\d+)\s*\)", r"\1", expr)
@@ -428,13 +494,20 @@ def source_constants(chk):
                 chk.broke("rudisplay.h: the digit buffer `char result[%s]` of display_dec is shorter than the longest decimal numeral of ruint<K>: %s"
                           % (expr.strip(), "; ".join(bad)))
         except Exception as ex:
-            out["recint.display_dec.buffer"] = "expression `%s` not evaluated: %s (inconclusive)" % (expr.strip(), ex)
+            out["recint.display_dec.buffer"] = "expression `%s` not evaluated: %s" % (expr.strip(), ex)
+            chk.broke("source tie lost: the size expression `%s` of display_dec's buffer cannot be evaluated (%s)" % (expr.strip(), ex))
     # 2. Rational reader: the only character skipped by the look-ahead, and the fraction bar (model: 32, 47)
     t = src("src/kernel/rational/givratio.C") or ""
     m1 = re.search(r"while\s*\(\s*\(\s*ch\s*==\s*'(.)'\s*\)\s*&&\s*\(?\s*in\s*\)?\s*\)", t)
     m2 = re.findall(r"if\s*\(\s*ch\s*==\s*'(.)'\s*\)", t)
-    out["rational.lookahead.skip"] = m1.group(1) if m1 else "pattern not found (inconclusive)"
-    out["rational.lookahead.bar"] = m2 if m2 else "pattern not found (inconclusive)"
+    out["rational.lookahead.skip"] = m1.group(1) if m1 else "pattern not found"
+    out["rational.lookahead.bar"] = m2 if m2 else "pattern not found"
+    if not m1 or not m2:
+        chk.broke("source tie lost: the look-ahead loop `while ((ch==' ') && (in))` / the test `if (ch == '/')` not found in givratio.C")
+    m3 = re.search(r"if\s*\(\s*den\s*>\s*1\s*\)", t)           # Rational::print: denominator printed iff den > 1 (model: rat_write)
+    out["rational.print.den_test"] = "den > 1" if m3 else "pattern not found"
+    if not m3:
+        chk.broke("source tie lost: `if (den > 1)` of Rational::print not found in givratio.C (model rat_write prints the denominator iff 1 < d)")
     if m1 and m1.group(1) != " ":
         chk.broke("givratio.C: the look-ahead skips %r, the model (blank_loop) skips ' '" % m1.group(1))
     if m2 and m2 != ["/"]:
@@ -442,21 +515,135 @@ def source_constants(chk):
     # 3. Integer(const char*): base handed to mpz_init_set_str (model: mpz_set_str10)
     t = src("src/kernel/gmp++/gmp++_int_cstor.C") or ""
     m = re.search(r"Integer::Integer\s*\(\s*const\s+char\s*\*\s*\w*\s*\)\s*\{[^}]*mpz_init_set_str\s*\([^,]+,[^,]+,\s*([0-9]+)\s*\)", t, re.S)
-    out["integer.cstr.base"] = int(m.group(1)) if m else "pattern not found (inconclusive)"
+    out["integer.cstr.base"] = int(m.group(1)) if m else "pattern not found"
+    if not m:
+        chk.broke("source tie lost: Integer::Integer(const char*) { mpz_init_set_str(.., .., base) } not found in gmp++_int_cstor.C")
     if m and int(m.group(1)) != 10:
         chk.broke("gmp++_int_cstor.C: Integer(const char*) parses in base %s, the model (Integer_of_string) in base 10" % m.group(1))
     # 4. Poly1Dom::write: the string literals of the algebraic syntax (model: poly_write, proved parser poly_parse)
     t = src("src/library/poly1/givpoly1io.inl") or ""
     k = t.find("::write( std::ostream& o, const Rep& R)")
     if k < 0:
-        out["poly.write.literals"] = "pattern not found (inconclusive)"
+        out["poly.write.literals"] = "pattern not found"
+        chk.broke("source tie lost: Poly1Dom::write( std::ostream& o, const Rep& R) not found in givpoly1io.inl")
     else:
         body = t[k:t.find("::read ( std::istream& i, Rep& P)", k)]
         lits = sorted(set(re.findall(r'"([^"\n]*)"', body)))
         out["poly.write.literals"] = lits
         if lits != sorted(["(", ")", ")*", " + ", "^", "0"]):
             chk.broke("givpoly1io.inl: Poly1Dom::write uses the literals %r, the model (poly_write) has '(' ')' ')*' ' + ' '^' '0'" % lits)
+    # 5. display_hex: digits per limb (model hex_fixed: 16 per 64-bit limb) and the 1-byte element cast of Modular_implem::write
+    t = src("src/kernel/recint/rudisplay.h") or ""
+    m = re.search(r"std::setw\(\s*__RECINT_LIMB_BITS\s*/\s*4\s*\)\s*<<\s*std::setfill\(\s*'0'\s*\)", t)
+    t2 = src("src/kernel/recint/recdefine.h") or src("src/kernel/recint/recint-config.h") or ""
+    mb = re.search(r"#define\s+__RECINT_LIMB_BITS\s+\(?\s*([0-9]+)", t2)
+    out["recint.display_hex.limb"] = {"setw": "__RECINT_LIMB_BITS/4, fill '0'" if m else "pattern not found", "LIMB_BITS": int(mb.group(1)) if mb else "not found"}
+    if not m:
+        chk.broke("source tie lost: `std::setw(__RECINT_LIMB_BITS/4) << std::setfill('0')` of display_hex not found in rudisplay.h (model: 16 hex digits per limb)")
+    if mb and int(mb.group(1)) != 64:
+        chk.broke("recint: __RECINT_LIMB_BITS is %s, the model has 64-bit limbs" % mb.group(1))
+    t = src("src/kernel/ring/modular-implem.h") or ""
+    m = re.search(r"sizeof\(E\)\s*==\s*1\)\s*inline\s+std::ostream&\s*write\s*\(std::ostream&\s*\w+,\s*const\s+E&\s*\w+\)\s*const\s*\{[^}]*int32_t\s*\(", t, re.S)
+    out["modular.write.1byte_cast"] = "int32_t" if m else "pattern not found"
+    if not m:
+        chk.broke("source tie lost: the 1-byte specialisation of Modular_implem::write (cast to int32_t before printing) not found in modular-implem.h")
+    out["poly.read.guarded"] = poly_read_is_guarded()
     chk.cov["source_constants"] = out
+
+
+def inconclusive(chk, what):
+    """a problem of our own tooling: recorded prominently, never a pass of the probes that did not run, never a violation"""
+    chk.notes.append("INCONCLUSIVE: " + what)
+    chk.cov.setdefault("inconclusive", []).append(what)
+    chk.cov["floor_missed"] = ["nothing was compared: " + what]
+    return chk.finish()
+
+
+def poly_read_is_guarded():
+    """does /repo's Poly1Dom::read have the body of frag/C19.fix-5 (`long deg = -1; ... if (!i) return i;`)?"""
+    try:
+        t = open(os.path.join(vf.REPO, "src/library/poly1/givpoly1io.inl"), errors="replace").read()
+    except OSError:
+        return False
+    k = t.find("::read ( std::istream& i, Rep& P)")
+    return bool(re.search(r"long\s+deg\s*=\s*-\s*1\s*;", t[k:] if k >= 0 else t))
+
+
+def reader_tmp_initialised():
+    """do the six `T tmp; is >> tmp; init(x, tmp)` element readers initialise their temporary (frag/C19.fix-6)?"""
+    files = {"src/kernel/ring/modular-balanced-double.inl": r"Element\s+tmp\s*=\s*0\s*;", "src/kernel/ring/modular-balanced-float.inl": r"Element\s+tmp\s*=\s*0\s*;",
+             "src/kernel/ring/modular-balanced-int32.inl": r"Element\s+tmp\s*=\s*0\s*;", "src/kernel/ring/modular-balanced-int64.inl": r"Element\s+tmp\s*=\s*0\s*;",
+             "src/kernel/ring/modular-extended.inl": r"int64_t\s+tmp\s*=\s*0\s*;", "src/kernel/field/gfq.inl": r"TT\s+t\s*=\s*0\s*;"}
+    try:
+        return all(re.search(rx, open(os.path.join(vf.REPO, f), errors="replace").read()) for f, rx in files.items())
+    except OSError:
+        return False
+
+
+TMP_UNASSIGNED = ("element read through a temporary", "end of input (temporary never assigned)")
+
+
+def tmp_unassigned_case(kind, sp):
+    """does this case make a `T tmp; is >> tmp; init(x, tmp)` reader run with a failing sentry (stream not good / only white space)?"""
+    if sp.get("tmp0", True):
+        return False
+    if kind in ("ring.read", "gfq.read"):
+        rd = "word" if kind == "gfq.read" else RINGS[sp["ring"]][1]
+        return rd != "int" and sp["text"].strip(WS) == ""
+    if kind in ("ring.seqd", "ring.wseq", "gfq.seqd") and sp.get("reader") != "int":
+        ps = PStream(sp["text"])
+        for _ in range(sp["n"]):
+            if not ps.good() or ps.t.strip(WS) == "":
+                return True
+            py_coef_read(ps, sp["reader"], (sp["lo"], sp["hi"]))
+    return False
+
+
+CPU_BUDGET = 10          # CPU seconds per case inside the harness (ITIMER_PROF); a case that exceeds it is re-run alone with 6x
+
+
+def run_impl(himpl, lines, notes):
+    """run the implementation harness; a case that crashes or exceeds its CPU budget yields a marker line for THAT case
+    (after one re-run alone with a larger budget) and the run continues behind it.  -> (list of result lines or None, problem)"""
+    out, i, restarts, hangs = [], 0, 0, 0
+    while i < len(lines):
+        if hangs >= 5:          # enough evidence: the remaining cases are not run (and not counted as compared)
+            notes.append("%d cases were not run after 5 cases that did not return" % (len(lines) - i))
+            out += ["NOT-RUN"] * (len(lines) - i)
+            break
+        rc, o, err = vf.run_lines(himpl, "".join(l + "\n" for l in lines[i:]), timeout=1500, args=(str(CPU_BUDGET),))
+        if rc == 124:
+            return None, "time-out"
+        if rc == 0 and len(o) == len(lines) - i:
+            out += o
+            break
+        marker = o[-1] if o and o[-1].split()[:1] in (["CPU-TIMEOUT"], ["CRASHED"]) else None
+        done = o[:-1] if marker else o
+        if len(done) >= len(lines) - i:
+            return None, "harness failed (rc=%s): %s" % (rc, err[-500:])
+        k = i + len(done)                       # the case that was running
+        out += done
+        if marker is None:
+            marker = "CRASHED rc=%s" % rc       # killed without a marker (e.g. SIGKILL)
+        if marker.startswith("CPU-TIMEOUT") and hangs >= 1:
+            marker = "DOES-NOT-RETURN after %d CPU seconds (only the first such case is re-run with %d)" % (CPU_BUDGET, 6 * CPU_BUDGET)
+            hangs += 1
+        elif marker.startswith("CPU-TIMEOUT"):
+            hangs += 1
+            rc2, o2, _ = vf.run_lines(himpl, lines[k] + "\n", timeout=1500, args=(str(6 * CPU_BUDGET),))
+            if rc2 == 0 and len(o2) == 1:
+                notes.append("slow case (more than %d CPU seconds): %s" % (CPU_BUDGET, lines[k][:200]))
+                marker = o2[0]
+            elif rc2 == 124:
+                return None, "time-out"
+            else:
+                marker = "DOES-NOT-RETURN after %d CPU seconds" % (6 * CPU_BUDGET)
+        out.append(marker)
+        i = k + 1
+        restarts += 1
+        if restarts > 200:
+            return None, "harness crashed on more than 200 cases"
+    return out, None
 
 
 def main(tier, replay=None):
@@ -480,19 +667,32 @@ def main(tier, replay=None):
     res = vf.coq_check_props(AREA)
     chk.proof_result(res, AREA)
     source_constants(chk)
+    # The repairs frag/C19.fix-5 (ee602ef) and fix-6 (2a4e54f) are in /repo: the model and the oracles describe the repaired bodies and
+    # every comparison is unconditional.  That the sources still have those bodies is a tie that fails closed (a tree without them
+    # is compared with the repaired model all the same: its crashes and garbage values are concrete failing inputs).
+    TMP0, POLY_FIXED = True, True
+    STATE["tmp0"] = True
+    chk.cov["source_constants"]["reader.tmp.initialised"] = reader_tmp_initialised()
+    if not chk.cov["source_constants"]["reader.tmp.initialised"]:
+        chk.broke("source tie lost: the num_get-based element readers (ModularBalanced<*>, ModularExtended, GFqDom ::read) no longer initialise their temporary (`T tmp = 0;`), which the model (elt_read_word .. 0) relies on")
+    if not chk.cov["source_constants"]["poly.read.guarded"]:
+        chk.broke("source tie lost: Poly1Dom::read no longer has the guarded body `long deg = -1; i >> deg; if (!i) return i; if (deg < 0) ...` that the model (poly_read_into) describes")
     # 2. executables
     drv, l1 = vf.ocaml_build(AREA) if os.path.exists(os.path.join(vf.coq_dir(AREA), "ocaml", "model.ml")) else (None, "extraction did not run")
     if drv is None:
         chk.broke("extracted model driver does not build", l1)
     himpl, l2 = build_harness_private("c19_io.C")
+    if himpl is None and ("[timeout" in l2 or "vanished from the cache" in l2 or "library build failed" in l2 and "[timeout" in l2):
+        chk.notes.append("harness build hit a time-out / cache race, retrying once: " + l2[-200:])
+        himpl, l2 = build_harness_private("c19_io.C")
+        if himpl is None and ("[timeout" in l2 or "vanished from the cache" in l2):
+            return inconclusive(chk, "implementation harness could not be built (compiler time-out under load or cache race): " + l2[-300:])
     if himpl is None:
         chk.broke("implementation harness does not compile against /repo", l2)
         return chk.finish()
     rc, mc, err = vf.run_lines(himpl, "".join("ring.maxc %s 3\n" % n for n in sorted(RINGS)))
     if rc == 124:
-        chk.notes.append("INCONCLUSIVE: the implementation harness timed out on ring.maxc")
-        chk.cov["inconclusive_streams"] = ["implementation harness time-out"]
-        return chk.finish()
+        return inconclusive(chk, "the implementation harness timed out on ring.maxc")
     if rc != 0 or len(mc) != len(RINGS):
         chk.broke("harness failed on ring.maxc", err)
         return chk.finish()
@@ -509,6 +709,7 @@ def main(tier, replay=None):
     cases = []
 
     def add(kind, impl, model, **spec):
+        spec.setdefault("tmp0", TMP0)
         cases.append({"kind": kind, "impl": impl, "model": model, "spec": spec})
 
     # ---- Integer
@@ -749,8 +950,6 @@ def main(tier, replay=None):
         kind, reader, _ = RINGS[name]
         bal = 1 if kind == "bal" else 0
         ps = ring_moduli(name, maxc[name])
-        if name == "bd":       # coefficients >= 10^6 hit the known ModularBalanced<double>::write finding (tested under ring.rt)
-            ps = [q for q in ps if q < 2 * 10**6] + [1999993]
         for i in range(22 * S):
             p = ps[i % len(ps)]
             var = VARS[rng.below(len(VARS))] if i % 3 else "X"
@@ -765,7 +964,7 @@ def main(tier, replay=None):
                 cs = [0] * rng.range(0, 3)      # zero polynomial, also with size 0
             cstr = ",".join(str(c) for c in cs) if cs else "-"
             add("poly.write", "poly.rt %s %d %s %s" % (name, p, hx(var), cstr), "poly.write %s %d %d %s" % (hx(var), bal, p, cstr),
-                ring=name, p=p, var=var, cs=cs, rkind=kind)
+                ring=name, p=p, var=var, cs=cs, rkind=kind, fixed=POLY_FIXED)
             # the reader's own format: degree, then coefficients from the leading one down
             reps = [rep_of(kind, p, c) for c in cs]
             while reps and reps[-1] == 0:
@@ -897,31 +1096,40 @@ def main(tier, replay=None):
         kind, reader, _ = RINGS[name]
         bal = 1 if kind == "bal" else 0
         ps_ = ring_moduli(name, maxc[name])
-        if name == "bd":
-            ps_ = [q for q in ps_ if q < 2 * 10**6] + [1999993]
+        lohi = RINGS[name][2] or (0, 0)
+        word = 0 if reader == "int" else 1
+
+        def add_poly_seq(p, old, n, t, degs=None):
+            ostr = ",".join(str(c) for c in old) or "-"
+            add_seqd("poly.seqd", "poly.seqd %s %d %s %d %s" % (name, p, ostr, n, hx(t)),
+                     "%s %d %d %d %d %d %s %d %s" % ("poly.seqd" if POLY_FIXED else "poly.seqd0", bal, word, lohi[0], lohi[1], p, ostr, n, hx(t)),
+                     typ="poly", ring=name, p=p, n=n, text=t, degs=degs, oldcs=old, fixed=POLY_FIXED, reader=reader, lohi=lohi)
         for si, degs in enumerate(poly_shapes + [[rng.below(7) for _ in range(rng.range(2, 5))] for _ in range(2 * S)]):
             p = ps_[(si + ri_) % len(ps_)]
             psep = SEPS[(si + ri_) % len(SEPS)]
             t = poly_text(rng, p, kind, degs, [" ", "\n", "  "][si % 3], psep, ["", psep, "\n"][si % 3])
             old = [[p - 1] * 8, [], [1], [p - 1] * 3, [0, 0, 0, 0, 0, 0, 1]][(si + ri_) % 5]
-            n = len(degs)
-            ostr = ",".join(str(c) for c in old) or "-"
-            add_seqd("poly.seqd", "poly.seqd %s %d %s %d %s" % (name, p, ostr, n, hx(t)),
-                     ("poly.seqd %d %d %s %d %s" % (bal, p, ostr, n, hx(t))) if reader == "int" else None,
-                     typ="poly", ring=name, p=p, n=n, text=t, degs=degs)
-        if reader == "int":         # a sequence cut short / with a bad coefficient: the reads after the failure
-            p = ps_[0]
-            for t in ["2 1 2 3\n1 4", "1 1 x\n0 5", "0 7 0"]:
-                add_seqd("poly.seqd", "poly.seqd %s %d %d,%d,%d,%d %d %s" % (name, p, p - 1, p - 1, p - 1, p - 1, 3, hx(t)),
-                         "poly.seqd %d %d %d,%d,%d,%d %d %s" % (bal, p, p - 1, p - 1, p - 1, p - 1, 3, hx(t)), typ="poly", ring=name, p=p, n=3, text=t, degs=None)
+            # one more read than there are polynomials: the read `while (D.read(in, P))` makes at the end of the input
+            add_poly_seq(p, old, len(degs) + 1, t, degs)
+        p = ps_[0]
+        # reads that have no degree to extract (empty text, white space, end of file) and negative degrees, alone and inside a sequence
+        for t, n in (("-1", 1), ("", 1), (" ", 1), ("\n", 2), ("-1\n0 1", 2), ("-5 3", 2), ("1 2 3\n-1\n0 1\n", 4), ("0 1", 3)):
+            add_poly_seq(p, [p - 1] * 3, n, t)
+        if reader == "int":         # a sequence cut short / with a bad coefficient / a bad degree: the reads after the failure
+            for t in ["2 1 2 3\n1 4", "1 1 x\n0 5", "0 7 0", "x 1 2", "2 1 2 3\nx"]:
+                add_poly_seq(p, [p - 1] * 4, 3, t)
     for (p, irr) in ((7, [1, 0, 1]), (101, [99, 0, 1]), (2, [1, 1, 0, 1]), (3, [1, 2, 0, 1, 1])):
-        for si, degs in enumerate(poly_shapes[:3]):
+        for si, degs in enumerate(poly_shapes[:3] + [None, None]):
             psep = SEPS[(si + p) % len(SEPS)]
-            t = poly_text(rng, p, "mod", degs, " ", psep, psep) if p > 2 else psep.join(str(d) + " 1" + " 1" * d for d in degs)
+            if degs is None:
+                t, n = [("-1", 1), ("0 1\n", 3)][si - 3]
+            else:
+                t = poly_text(rng, p, "mod", degs, " ", psep, psep) if p > 2 else psep.join(str(d) + " 1" + " 1" * d for d in degs)
+                n = len(degs) + 1
             old = [[p - 1] * 8, [], [1, 1, 1, 1]][si % 3]
             ostr = ",".join(str(c) for c in old) or "-"
-            add_seqd("ext.seqd", "ext.seqd %d %s %s %d %s" % (p, ",".join(str(c) for c in irr), ostr, len(degs), hx(t)), None,
-                     typ="ext", p=p, irr=irr, n=len(degs), text=t)
+            add_seqd("ext.seqd", "ext.seqd %d %s %s %d %s" % (p, ",".join(str(c) for c in irr), ostr, n, hx(t)), None,
+                     typ="ext", p=p, irr=irr, n=n, text=t, oldcs=old, fixed=POLY_FIXED)
     # what Poly1Dom::write prints, read by Poly1Dom::read into a variable that holds another polynomial
     for c in [c for c in cases if c["kind"] == "poly.write"]:
         sp = c["spec"]
@@ -930,9 +1138,10 @@ def main(tier, replay=None):
         ostr = ",".join(str(x) for x in old) or "-"
         cstr = ",".join(str(x) for x in cs) if cs else "-"
         bal = 1 if sp["rkind"] == "bal" else 0
+        lohi = RINGS[name][2] or (0, 0)
         add("poly.wr", "poly.wr %s %d %s %s %s" % (name, p, hx(var), cstr, ostr),
-            ("poly.wr %s %d %d %s %s" % (hx(var), bal, p, cstr, ostr)) if RINGS[name][1] == "int" else None,
-            ring=name, p=p, var=var, cs=cs, rkind=sp["rkind"], old=old)
+            "%s %s %d %d %d %d %d %s %s" % ("poly.wr" if POLY_FIXED else "poly.wr0", hx(var), bal, 0 if RINGS[name][1] == "int" else 1, lohi[0], lohi[1], p, cstr, ostr),
+            ring=name, p=p, var=var, cs=cs, rkind=sp["rkind"], old=old, fixed=POLY_FIXED)
 
     # ---- several values written one after the other to ONE ostream (a writer must leave the stream's flags alone), read back
     #      from ONE istream into ONE variable
@@ -988,8 +1197,6 @@ def main(tier, replay=None):
     for ri_, name in enumerate(POLY_RINGS):
         kind, reader, _ = RINGS[name]
         ps_ = ring_moduli(name, maxc[name])
-        if name == "bd":
-            ps_ = [q for q in ps_ if q < 2 * 10**6] + [1999993]
         for j in range(2):
             p = ps_[(j + ri_) % len(ps_)]
             var = VARS[(ri_ + j) % len(VARS)]
@@ -1011,6 +1218,48 @@ def main(tier, replay=None):
         add("mix.rt", "mix.rt %s %d %d %d %d %d %d %d %d %d %s %d %d %d %d" % (hx(sep), z, n1, d1, p, e, u, s7, bb, g, ",".join(str(c) for c in cs) or "-", z2, u8, n2, d2),
             None, sep=sep, z=z, q=(n1, d1), p=p, e=e, u=u, s7=s7, bb=bb, g=g, cs=cs, z2=z2, u8=u8, q2=(n2, d2))
 
+    # ---- Integer operator<< under stream flags (width, fill, showpos, showbase, uppercase, adjustment): GMP honours them; the text is
+    #      compared with the documented format and read back in the same base (it reads back when it is padded with blanks on the left,
+    #      without base prefix; the other outcomes are GMP's reader on that text)
+    flag_combos = [(10, 8, "*", 1, 0, 0, "r"), (10, 12, " ", 0, 0, 0, "r"), (10, 12, " ", 1, 0, 0, "r"), (10, 8, " ", 0, 0, 0, "l"), (10, 8, " ", 0, 0, 0, "i"),
+                   (16, 10, " ", 0, 1, 1, "r"), (16, 0, "", 0, 0, 1, "r"), (16, 20, " ", 1, 0, 0, "r"), (8, 0, "", 0, 1, 0, "r"), (8, 14, " ", 0, 0, 0, "r"),
+                   (10, 0, "", 1, 0, 0, "r"), (16, 6, "0", 0, 0, 0, "r")]
+    for k, combo in enumerate(flag_combos + [None] * (6 * S)):
+        if combo is not None:
+            b, w, fl_, sp_, sb_, up_, adj = combo
+        else:
+            b, w, fl_, sp_, up_, adj = rng.choice([10, 16, 8]), rng.choice([0, 5, 12, 30]), rng.choice([" ", " ", "*", "0"]), rng.below(2), rng.below(2), rng.choice(["r", "r", "l", "i"])
+            sb_ = rng.below(2) if adj != "i" else 0
+        for z in ([255, -255, 2**64, -(10**30)] if k < len(flag_combos) else [gen_int(rng) or 1]):
+            if z == 0:
+                z = 1
+            first = gmp_fmt(z, b, w, fl_, sp_, sb_, up_, adj)
+            t = first + "|" + gmp_fmt(z, b, 0, fl_, sp_, sb_, up_, adj)
+            add("int.flags", "int.flags %d %d %s %d %d %d %s %d 7" % (b, w, hx(fl_), sp_, sb_, up_, adj, z), None, text=t, first=first, base=b, z=z, old=7)
+    # ---- Extension elements are written by the polynomial writer of the extension's polynomial domain (model: poly_write)
+    for (p, irr) in ((7, [1, 0, 1]), (101, [99, 0, 1]), (3, [1, 2, 0, 1, 1])):
+        for cs in ([], [1], [0, 1], [p - 1, 0, 1], [rng.below(p) for _ in range(len(irr) - 1)], [2 % p] + [0] * (len(irr) - 3) + [1]):
+            cstr = ",".join(str(c) for c in cs) or "-"
+            add("ext.write", "ext.write %d %s %s" % (p, ",".join(str(c) for c in irr), cstr), "poly.write 58 0 %d %s" % (p, cstr), p=p, cs=cs)
+    # ---- RecInt rmint<K, MG> (plain and Montgomery representation): operator<< prints the residue, operator>> reads and reduces
+    for k, (mg, K, p) in enumerate([(1, 7, 101), (0, 7, 2**127 - 1), (1, 6, 2**64 - 59), (0, 6, 65521), (1, 7, 2**128 - 159), (0, 6, 3), (1, 6, 3)]):
+        vals = [p - 1, 0, 1, p // 2, rng.below(p), 2 % p]
+        sep = SEPS[(k + 1) % len(SEPS)]
+        t = sep.join(str(v) for v in vals)
+        add("rm.wseq", "rm.seqd %d %d %d %d %s %s %d" % (mg, K, p, p - 1, hx(sep), ",".join(str(v) for v in vals), len(vals) + 1),
+            "elt.seqd 0 0 0 0 %d %d %s" % (p, len(vals) + 1, hx(t)), typ="elt", ring="rmint", p=p, n=len(vals) + 1, text=t, reader="int", lo=0, hi=0, neg_ok=False,
+            site="RecInt::operator<<(rmint)")
+    # ---- rationals stored unreduced (Rational(n, d, 0)): printed as they are, read back in lowest terms (C19_rational_unreduced_roundtrip)
+    for i in range(30 * S):
+        n, d = gen_rat(rng)
+        kf = rng.choice([2, 3, 10, 2**64, -1, -3]) if i % 5 else 6
+        n2, d2 = n * abs(kf), d * abs(kf)
+        if n2 == 0 or d2 == 1:
+            continue
+        tail = rng.choice(TAILS_ANY)
+        v = rng.choice(["op", "print", "qfield"])
+        add("rat.rt", "rat.rt.%s %d %d %s" % (v, n2, d2, hx(tail)), "rat.rt %d %d %s" % (n2, d2, hx(tail)), n=n2, d=d2, tail=tail)
+
     if replay:
         try:
             import json
@@ -1029,13 +1278,11 @@ def main(tier, replay=None):
 
     # 4. run both sides
     impl_in = "".join(c["impl"] + "\n" for c in cases)
-    rc, iout, ierr = vf.run_lines(himpl, impl_in, timeout=1500)
-    if rc == 124:       # our own tooling ran out of time (machine load): inconclusive, recorded, not a violation of the property
-        chk.notes.append("INCONCLUSIVE: the implementation harness did not finish %d cases within 1500 s; no comparison was made" % len(cases))
-        chk.cov["inconclusive_streams"] = ["implementation harness time-out"]
-        return chk.finish()
-    if rc != 0 or len(iout) != len(cases):
-        chk.broke("implementation harness failed (rc=%s, %d/%d lines)" % (rc, len(iout), len(cases)), ierr)
+    iout, problem = run_impl(himpl, [c["impl"] for c in cases], chk.notes)
+    if iout is None and problem == "time-out":   # our own tooling ran out of time (machine load): inconclusive, recorded, not a violation
+        return inconclusive(chk, "implementation harness: wall-clock time-out, no comparison was made (%d cases)" % len(cases))
+    if iout is None:
+        chk.broke("implementation harness failed: %s" % problem)
         return chk.finish()
     mout = None
     midx = [i for i, c in enumerate(cases) if c["model"]]
@@ -1043,7 +1290,7 @@ def main(tier, replay=None):
         rc, mo, merr = run_chunks(drv, [cases[i]["model"] for i in midx], 8 if big else 4)
         if rc == 124:
             chk.notes.append("INCONCLUSIVE: the extracted model driver did not finish within 1700 s; the implementation was compared with the python oracles only")
-            chk.cov.setdefault("inconclusive_streams", []).append("model driver time-out")
+            chk.cov.setdefault("inconclusive", []).append("model driver: wall-clock time-out, no correspondence comparison was made")
         elif rc != 0 or len(mo) != len(midx):
             chk.broke("model driver failed (rc=%s, %d/%d lines)" % (rc, len(mo), len(midx)), merr)
         else:
@@ -1054,7 +1301,7 @@ def main(tier, replay=None):
         pidx = [i for i, c in enumerate(cases) if c["kind"] == "poly.write" and iout[i].split()]
         rc, po, perr = run_chunks(drv, ["poly.parse %s %s" % (hx(cases[i]["spec"]["var"]), iout[i].split()[0]) for i in pidx], 2)
         if rc == 124:
-            chk.cov.setdefault("inconclusive_streams", []).append("model driver time-out (poly.parse)")
+            chk.cov.setdefault("inconclusive", []).append("model driver time-out (poly.parse): the proved parser was not run on the written texts")
         elif rc != 0 or len(po) != len(pidx):
             chk.broke("model driver failed on poly.parse (rc=%s, %d/%d lines)" % (rc, len(po), len(pidx)), perr)
         else:
@@ -1073,7 +1320,7 @@ def main(tier, replay=None):
         chk.count(c["impl"], nontrivial=nontrivial)
         if i % 401 == 0:
             chk.sample({"case": c["impl"], "impl": iout[i][:160], "model": (mline or "")[:160]})
-        if mline is not None:
+        if mline is not None and iout[i] != "NOT-RUN":
             ncorr += 1
     # GFq: the written texts of one field are pairwise different (exhaustive fields)
     for key, d in gfq_texts.items():
@@ -1096,6 +1343,17 @@ def main(tier, replay=None):
         key = tk[0] + (":" + tk[1] if tk[0].split(".")[0] in ("ring", "poly") else (":K=" + tk[1] + (",hex" if tk[2] == "1" else "") if tk[0][:3] in ("ru.", "ri.") else ""))
         forms[key] = forms.get(key, 0) + 1
     chk.cov["call_forms"] = forms
+    # floors on what was actually compared: a run that falls below them because of tooling problems says so prominently
+    floor = {"oracle_comparisons": 9000 if not big else 150000, "model_comparisons": 8500 if not big else 140000}
+    not_run = sum(1 for l in iout if l == "NOT-RUN")
+    done = {"oracle_comparisons": (len(cases) - not_run) if not replay else floor["oracle_comparisons"], "model_comparisons": ncorr if not replay else floor["model_comparisons"]}
+    chk.cov["compared"] = dict(done, theorems_rechecked=chk.cov.get("discharged", 0), floor=floor)
+    missed = ["%s: %d < %d" % (k, done[k], floor[k]) for k in floor if done[k] < floor[k]]
+    if chk.cov.get("discharged", 0) < chk.cov.get("obligations", 0):
+        missed.append("theorems: %d of %d re-checked" % (chk.cov.get("discharged", 0), chk.cov.get("obligations", 0)))
+    if missed:
+        chk.cov["floor_missed"] = missed
+        chk.notes.append("FLOOR MISSED (tooling): " + "; ".join(missed))
     chk.cov["traces_validated_against_impl"] = ncorr
     chk.cov["distribution_by_kind"] = dist
     chk.cov["rings"] = sorted(RINGS)
@@ -1198,24 +1456,39 @@ def judge(chk, c, got, mline, gfq_texts):
 
     mt = mline.split() if mline is not None else None
 
-    def pair_failure(name, p, reps, text, g3):
-        """Poly1Dom::read did not give back what Poly1Dom::write printed.  g3 = [coefficients, rest, state] observed."""
-        pred = py_poly_read(text, p)
+    def pair_failure(name, p, reps, text, g3, oldcs):
+        """Poly1Dom::read did not give back what Poly1Dom::write printed.  g3 = [coefficients, rest, state] observed.
+        The known keys cover ONLY the outcome the degree-prefixed reader must have on that text, coefficient by coefficient
+        (for every coefficient reader; a coefficient whose temporary is never assigned is the only one not compared)."""
+        knd_, reader_, lohi_ = RINGS[name]
+        pred = py_poly_read(text, p, sp["fixed"], reader_, lohi_, [x % p for x in oldcs])
         as_predicted = False
-        if pred is not None and g3 is not None and pred[3]:
+        if pred not in (None, "UB") and g3 is not None and pred[3]:
             pcs, prest, pe, pf = pred
-            as_predicted = g3[1:] == [hx(prest), st(pe, pf)] and len(g3[0].split(",")) == len(pcs)
-            if RINGS[name][1] == "int":       # other readers leave the coefficients read after the failure unspecified
-                as_predicted = as_predicted and g3[0] == ",".join(str(x) for x in pcs)
+            as_predicted = g3[1:] == [hx(prest), st(pe, pf)] and coefs_match(pcs, g3[0])
         if as_predicted:
             nz = [x for x in reps if x != 0]
             fail("Poly1Dom::read(write)", "zero polynomial" if not nz else "nonzero polynomial", "the polynomial written, stream not failed",
                  "Poly1Dom::read does not parse what Poly1Dom::write prints (observed = what the degree-prefixed reader does with that text)")
         else:
-            fail("Poly1Dom::read", "text written by Poly1Dom::write", "none" if pred is None else "%s %s %s" % (",".join(str(x) for x in pred[0]), hx(pred[1]), st(pred[2], pred[3])),
+            fail("Poly1Dom::read", "text written by Poly1Dom::write", "none" if pred in (None, "UB") else "%s %s %s" % (",".join("?" if x is None else str(x) for x in pred[0]) or "-", hx(pred[1]), st(pred[2], pred[3])),
                  "not what the degree-prefixed reader does with `%s`" % text[:120])
+        return pred
 
-    if kind == "poly.wseq":
+    if got == ["NOT-RUN"]:
+        return False
+    DEGLESS = ("Poly1Dom::read", "no degree to read (end of input / negative degree)")
+    if got[:1] in (["CRASHED"], ["DOES-NOT-RETURN"], ["CPU-TIMEOUT"]) or (got == ["EXCEPTION"] and kind in ("poly.seqd", "ext.seqd")):
+        # the harness case crashed or did not return (per-case CPU watchdog; re-run alone with a 6x budget before it is reported)
+        what = "crash (%s)" % raw if got[0] == "CRASHED" else "exception (a garbage size)" if got[0] == "EXCEPTION" else "does not return"
+        if tmp_unassigned_case(kind, sp):
+            fail(TMP_UNASSIGNED[0], TMP_UNASSIGNED[1], "failbit, the element = init(0)", what)
+        elif kind in ("poly.seqd", "ext.seqd") and not sp["fixed"] and seq_expect(sp)[2]:
+            # the unguarded Poly1Dom::read on a read that has no degree to extract: undefined behaviour of the code in /repo
+            fail(DEGLESS[0], DEGLESS[1], "failbit, P left alone (or the zero polynomial for a negative degree)", what)
+        else:
+            fail("%s [%s]" % (kind, c["impl"].split()[0]), what, "a result line", "the call %s" % ("crashed" if got[0] == "CRASHED" else "did not return within %d CPU seconds" % (6 * CPU_BUDGET)))
+    elif kind == "poly.wseq":
         if got != [hx(sp["text"])]:
             fail("Poly1Dom::write (several polynomials on one stream)", "text", hx(sp["text"]), "expected `%s`" % sp["text"][:200])
     elif kind == "mix.rt":
@@ -1255,7 +1528,7 @@ def judge(chk, c, got, mline, gfq_texts):
                 fail(sp["site"] + " (several values on one stream)", "text", hx(sp["text"]), "expected `%s`" % sp["text"][:200])
             got = got[1:]
             raw = " ".join(got)
-        exp, erest = seq_expect(sp)
+        exp, erest, degless = seq_expect(sp)
         toks, grest = got[:-1], (got[-1] if got else "")
         typ = sp["typ"]
         site = {"int": "Integer::operator>> (same variable)", "rat": "Rational::operator>> (same variable)",
@@ -1280,7 +1553,21 @@ def judge(chk, c, got, mline, gfq_texts):
                 if len(parts) != 3 or (ev is not None and normv(parts[0]) != ev) or (eef is not None and parts[1] != eef) or (enx is not None and parts[2] != enx):
                     ok = False
                     break
-        if not ok:
+        if not ok and degless and not sp.get("fixed", True):
+            # unguarded Poly1Dom::read: everything before the first read without a degree must still be right
+            d0 = degless[0]
+            pre_ok = len(toks) >= d0
+            for (ev, eef, enx), tk in zip(exp[:d0], toks[:d0]):
+                parts = tk.split(":")
+                if len(parts) != 3 or (ev is not None and normv(parts[0]) != ev) or (eef is not None and parts[1] != eef) or (enx is not None and parts[2] != enx):
+                    pre_ok = False
+            if pre_ok:
+                fail(DEGLESS[0], DEGLESS[1], " ".join("%s:%s:%s" % tuple("?" if x is None else x for x in e) for e in exp) + " " + str(erest),
+                     "read #%d of `%s` has no degree to extract" % (d0 + 1, sp["text"][:120]))
+            else:
+                fail(site, "seq", " ".join("%s:%s:%s" % tuple("?" if x is None else x for x in e) for e in exp) + " " + str(erest),
+                     "%d reads into one variable from `%s`" % (sp["n"], sp["text"][:120]))
+        elif not ok:
             klass = "seq"
             if typ == "rat" and re.search(r"(^|[\t\n\v\f\r ])[+-]?[0-9]+ +$", sp["text"]):
                 klass = "integer, blanks, end of stream"
@@ -1289,6 +1576,10 @@ def judge(chk, c, got, mline, gfq_texts):
         if mt is not None and not failed[0]:
             # correspondence: token by token; values of the ring readers modulo p; nothing after the harness stopped
             mtoks, mrest = mt[:-1], mt[-1]
+            if mrest == "UB":            # historical model: the next read is undefined; the defined prefix must agree
+                toks, grest = toks[:len(mtoks)], "UB"
+                if len(toks) < len(mtoks):
+                    chk.broke("correspondence model/implementation differs on `%s`: model=%s impl=%s" % (c["impl"][:300], mline[:300], raw[:300]))
             p_ = sp.get("p")
             good_entry = True
             bad = len(mtoks) < len(toks)
@@ -1303,6 +1594,8 @@ def judge(chk, c, got, mline, gfq_texts):
                         mv = iv              # `T tmp; is >> tmp;` when the sentry fails (stream not good, or only white space left): tmp is not assigned
                 if typ == "poly":
                     mv = ",".join(str(int(x) % p_) for x in mv.split(",")) if mv != "-" else "-"
+                    if sp.get("reader") != "int" and not sp.get("tmp0") and (k_ >= len(exp) or exp[k_][0] is None):
+                        mv = iv              # coefficients read through a temporary that is never assigned
                 if [mv] + mp_[1:] != [iv] + ip_[1:]:
                     bad = True
                 good_entry = ip_[1] == "00"
@@ -1312,6 +1605,18 @@ def judge(chk, c, got, mline, gfq_texts):
                 bad = True               # the harness stops only when the stream is not good
             if bad:
                 chk.broke("correspondence model/implementation differs on `%s`: model=%s impl=%s" % (c["impl"][:300], mline[:300], raw[:300]))
+    elif kind == "int.flags":
+        v, r, e, f = py_int_read(sp["first"], sp["old"], sp["base"])
+        exp = [hx(sp["text"]), str(v), hx(r), st(e, f)]
+        if got[:1] != exp[:1]:
+            fail("Integer::print under stream flags", "text", exp[0], "expected `%s`" % sp["text"][:200])
+        elif got != exp:
+            fail("Integer::operator>> base %d" % sp["base"], "text written under stream flags", " ".join(exp))
+    elif kind == "ext.write":
+        exp = [hx(py_poly_text("X", [c % sp["p"] for c in sp["cs"]]))]
+        if got != exp:
+            fail("Extension::write", "text", exp[0])
+        corr(mt, got)
     elif kind == "ru.wbuf":
         exp = [hx(str(sp["a"]))]
         if got != exp:
@@ -1331,11 +1636,15 @@ def judge(chk, c, got, mline, gfq_texts):
         text = unhx(got[0]) if got else ""
         g3 = got[1:] if len(got) == 4 else None
         want = ",".join(str(x) for x in reps) or "-"
+        pred = None
         if g3 is None or g3[0] != want or g3[2][1] == "1":
-            pair_failure(name, p, reps, text, g3)
-        if mt is not None:
-            mm = mt[:1] + [",".join(str(int(x) % p) for x in mt[1].split(",")) if mt[1] != "-" else "-"] + mt[2:]
-            corr(mm, got)
+            pred = pair_failure(name, p, reps, text, g3, sp["old"])
+        if mt is not None and len(mt) == 4 and g3 is not None:
+            mc = [str(int(x) % p) for x in mt[1].split(",")] if mt[1] != "-" else []
+            gc = g3[0].split(",") if g3[0] != "-" else []
+            if pred not in (None, "UB") and len(mc) == len(gc) == len(pred[0]):
+                mc = [g if q is None else m_ for m_, g, q in zip(mc, gc, pred[0])]     # a temporary that is never assigned
+            corr(mt[:1] + [",".join(mc) or "-"] + mt[2:], got)
     elif kind in ("int.write", "int.abs"):
         exp = hx(str(abs(sp["z"]) if kind == "int.abs" else sp["z"]))
         if got != [exp]:
@@ -1579,7 +1888,7 @@ def judge(chk, c, got, mline, gfq_texts):
             # is there a reader for it?  Poly1Dom::read expects "deg c_deg ... c_0".  The known finding covers exactly
             # what that reader does with the algebraic text (predicted here); anything else is a new failure.
             if len(got) < 2 or got[1] != "1" or (len(got) >= 5 and got[4][1] == "1"):
-                pair_failure(name, p, reps, text, got[2:] if len(got) == 5 else None)
+                pair_failure(name, p, reps, text, got[2:] if len(got) == 5 else None, [])
     elif kind == "poly.read":
         name, p = sp["ring"], sp["p"]
         if sp["fmt"]:
